@@ -498,6 +498,17 @@ def expand_to(E, t, shape, node=None):
     r = view_of(t, t.dtype, out, elem)
     if off > 0 or any(m != "same" for m in modes if m is not None):
         r.attrs["expanded"] = True      # broadcast dimensions have stride 0: not a dense tensor
+        base_st = list(t.strides) if t.strides is not None else list(contiguous_strides(list(t.shape)))
+        st = []
+        for k in range(len(shape)):
+            m = modes[k]
+            if m is None or m == "one":
+                st.append(0)
+            elif m == "same":
+                st.append(base_st[k - off])
+            else:
+                st.append(z3.If(zi(m[1]) == 1, 0, zi(base_st[k - off])))
+        r.strides = tuple(st)
     return r
 
 
